@@ -103,7 +103,8 @@ def _mask_case(ctx, q, attrs, axes_used, radius_of, uniform, label, const_axis=N
     try:
         mask, log = _observe(lambda: it.call_method(obj, "get_voxel_mask_for_shape"))
     except Raised as r:
-        raise AnalysisError(f"{label}: get_voxel_mask_for_shape raises: {r}")
+        ctx.ob("R43.0", f"{label}:accepted", False, "a documented combination of shape parameters is rasterised, not rejected", str(r)[:200], "a mask")
+        return
     shape = tuple(SL[a][1] - SL[a][0] for a in range(3))
     want_shape = tuple(1 if a == const_axis else shape[a] for a in range(3))
     if not (isinstance(mask, NdArr) and mask.shape == want_shape):
@@ -133,7 +134,7 @@ def _sphere(ctx):
     R = Rat.atom("R")
     for uniform in (True, False):
         g = "uniform" if uniform else "nonuniform"
-        for tag, attrs in (("sphere", dict(radius=R, radius_x=None, radius_y=None, radius_z=None)), ("ellipsoid", dict(radius=R, radius_x=Rat.atom("Rx"), radius_y=Rat.atom("Ry"), radius_z=Rat.atom("Rz"))), ("partial", dict(radius=R, radius_x=None, radius_y=Rat.atom("Ry"), radius_z=None))):
+        for tag, attrs in (("sphere", dict(radius=R, radius_x=None, radius_y=None, radius_z=None)), ("ellipsoid", dict(radius=R, radius_x=Rat.atom("Rx"), radius_y=Rat.atom("Ry"), radius_z=Rat.atom("Rz"))), ("partial", dict(radius=R, radius_x=None, radius_y=Rat.atom("Ry"), radius_z=None)), ("partial-z", dict(radius=R, radius_x=None, radius_y=None, radius_z=Rat.atom("Rz"))), ("partial-xz", dict(radius=R, radius_x=Rat.atom("Rx"), radius_y=None, radius_z=Rat.atom("Rz")))):
             rad = lambda ax, _a=attrs: (_a[("radius_x", "radius_y", "radius_z")[ax]] if _a[("radius_x", "radius_y", "radius_z")[ax]] is not None else _a["radius"])
             _mask_case(ctx, q, attrs, (0, 1, 2), rad, uniform, f"Sphere[{tag},{g}]")
 
